@@ -56,6 +56,8 @@ func (i *contextInitializer) initRef() error {
 		return vivid.ErrorRefInvalidPath.With(joinPathErr).With(newRefErr)
 	}
 	i.ctx.ref = ref
+	// 子 Actor 的创建直到 ActorOf 完成名称登记才算确认，参见 eventStream.unsubscribeUnborn
+	ref.unborn.Store(i.ctx.parent != nil)
 	return nil
 }
 
